@@ -773,7 +773,10 @@ class Models(object):
             if E.decide(sym.is_strict_int(v)):
                 return sym.mk_str(int_to_str(Val.i(t)))
             if E.decide(sym.is_float(v)):
-                return sym.mk_str(sym.float_str(Val.f(t)))
+                fs = sym.float_str(Val.f(t))
+                # A5: repr of a finite float is a decimal numeral  -?d+(.d+)?(e[+-]d+)?
+                E.assume(z3.InRe(fs, sym.FLOAT_REPR_RE))
+                return sym.mk_str(fs)
             E.havoc("str() of a container reference")
             return SV(Val.VStr(E.fresh("str_of_ref", sym.S)))
         if isinstance(v, Obj):
@@ -968,6 +971,33 @@ class Models(object):
         ck = ("strip", t.get_id(), chars, which)
         if ck in E.path.refs and E.path.refs[ck][0].eq(t):
             return sym.mk_str(E.path.refs[ck][1])
+        # structural shortcut: when the path condition rules out a strippable first/last character, strip is the identity
+        anyc = z3.Star(z3.AllChar(sym.RS))
+        ends = []
+        if which in ("strip", "lstrip"):
+            ends.append(z3.InRe(t, z3.Concat(cls, anyc)))
+        if which in ("strip", "rstrip"):
+            ends.append(z3.InRe(t, z3.Concat(anyc, cls)))
+        probe = z3.Or(*ends) if len(ends) > 1 else ends[0]
+
+        def numeral(x):
+            ih = sym.INT_STR.get(x.get_id())
+            if ih is not None and ih[0].eq(x):
+                return "0123456789-"
+            if z3.is_app(x) and x.decl().name() == "float_str":
+                return "0123456789-+.e"
+            return None
+
+        def end_free(x, first):
+            if isinstance(x, str):
+                return (x[0] if first else x[-1]) not in chars_l
+            al = numeral(x)
+            return al is not None and not any(ch in al for ch in chars_l)      # numerals are non-empty
+        ps = self.pieces(t)
+        struct = bool(ps) and (which == "rstrip" or end_free(ps[0], True)) and (which == "lstrip" or end_free(ps[-1], False))
+        if struct or E.feasible(E.path.pc, timeout_ms=800, slice_for=probe) is False:
+            E.path.refs[ck] = (t, t)
+            return sym.mk_str(t)
         pre = E.fresh("strip_l", sym.S)
         mid = E.fresh("strip_m", sym.S)
         E.path.refs[ck] = (t, mid)
@@ -1023,6 +1053,12 @@ class Models(object):
         hit = E.path.refs.get(key)
         if hit is not None and hit[0].eq(t):
             return hit[1]
+        # numerals: str(int) is made of digits and '-', repr(float) of digits and "-+.e" (A5)
+        ih = sym.INT_STR.get(t.get_id())
+        if ih is not None and ih[0].eq(t) and any(ch not in "0123456789-" for ch in sep):
+            return True
+        if z3.is_app(t) and t.decl().name() == "float_str" and any(ch not in "0123456789-+.e" for ch in sep):
+            return True
         r = E.feasible(E.path.pc, timeout_ms=800, slice_for=sym.B(self.contains_lit(t, sep))) is False
         E.path.refs[key] = (t, r)
         return r
@@ -1896,6 +1932,8 @@ class Models(object):
                 return SV(Val.VFloat(z3.ToReal(sym.sint(v))))
             if E.decide(sym.is_str(v)):
                 st_ = z3.simplify(sym.sstr(v))
+                if z3.is_app(st_) and st_.decl().name() == "float_str" and st_.num_args() == 1:
+                    return SV(Val.VFloat(st_.arg(0)))           # A5: float(repr(x)) == x for finite floats
                 hit = sym.INT_STR.get(st_.get_id())
                 if hit is not None and hit[0].eq(st_) and E.decide(as_bool(z3.And(hit[1] >= -2 ** 53, hit[1] <= 2 ** 53))):
                     return SV(Val.VFloat(z3.ToReal(hit[1])))     # A5: float(str(i)) is exact for |i| <= 2^53
